@@ -83,10 +83,40 @@ theorem chars_slice_no_panic (dbg : Bool) (s : Str) (i j : U64) : bind_StringCha
       | ok v => simp
       | panic => exact absurd hr h
 
-/-- `StringLines::slice` indexes with `&s[start_idx..end_idx]`; both offsets are
-    0, an offset just after a newline, or the string's length, taken in
-    ascending order — always char boundaries.  (Over the hand model of the two
-    `for` loops, `StringLines_slice_model`, tied by correspondence.) -/
+/-- `StringLines::slice`, transliterated statement by statement (its two skip/take loops read as
+    `Str.advanceR`, the newline-offset iterator named): it indexes with `&s[start_idx..end_idx]`; both
+    offsets are 0, an offset just after a newline, or the string's length, taken in ascending order —
+    always char boundaries — so the index expression cannot panic, for every string and all `i`, `j`
+    (reversed ranges and out-of-range line numbers included: `checked_sub` / a dry iterator answer `None`). -/
+theorem lines_slice_inner_no_panic (dbg : Bool) (s : Str) (i j : USz) : StringLines_slice dbg s i j ≠ .panic := by
+  unfold StringLines_slice RQ.bind
+  cases RInt.checked_sub j i with
+  | none => simp
+  | some num =>
+    simp only []
+    have h0 : Str.Good s.chars (Str.byteLenL s.chars) 0 (Str.afterNewlinesFrom 0 s.chars) := by
+      have := Str.afterNewlines_good [] s.chars 0 ⟨0, by simp, by simp [Str.byteLenL]⟩ (by simp [Str.byteLenL])
+      simpa [Str.byteLenL] using this
+    have hub : Str.isB s.chars (Str.byteLenL s.chars) := ⟨s.chars.length, Nat.le_refl _, by simp⟩
+    by_cases he : s.ends_with_nl <;> simp only [he, Str.advanceR, Str.after_newlines, Str.chain_opt] <;>
+    (cases h1 : Str.advance (Str.afterNewlinesFrom 0 s.chars) (ToOff.toOff i - ToOff.toOff (0 : Nat)) 0 with
+     | none => simp
+     | some p =>
+       obtain ⟨start_idx, iter⟩ := p
+       have hg1 := Str.advance_good _ _ _ _ _ h0 h1
+       have hg2e : Str.Good s.chars (Str.byteLenL s.chars) start_idx (iter ++ [s.byteLen]) := by
+         simpa [Str.byteLen] using Str.good_append iter start_idx hg1.2 hub
+       by_cases hn : num = 0
+       · simp [hn, REq.eq]
+       · simp [hn, REq.eq]
+         split
+         · rename_i a h2
+           have hg3 := Str.advance_good _ _ _ a.fst a.snd (by first | exact hg1.2 | exact hg2e) h2
+           obtain ⟨t, ht⟩ := Str.range_isB s.chars start_idx a.fst hg1.2.isB hg3.2.isB hg3.1
+           have : Str.index_range s start_idx a.fst = .ok t := ht
+           simp [this]
+         · simp)
+
 theorem lines_slice_no_panic (dbg : Bool) (s : Str) (i j : U64) : bind_StringLines_slice dbg s i j ≠ .panic := by
   unfold bind_StringLines_slice RQ.bind
   cases RInt.try_into i with
@@ -95,9 +125,9 @@ theorem lines_slice_no_panic (dbg : Bool) (s : Str) (i j : U64) : bind_StringLin
     cases RInt.try_into j with
     | none => simp
     | some j' =>
-      have h := lines_slice_model_no_panic s i' j'
-      simp only [StringLines_slice]
-      cases hr : StringLines_slice_model s i' j' with
+      have h := lines_slice_inner_no_panic dbg s i' j'
+      simp only []
+      cases hr : StringLines_slice dbg s i' j' with
       | ok v => simp
       | panic => exact absurd hr h
 
@@ -228,6 +258,15 @@ example : @wf t64 (@RawListS.mk t64 ⟨BitVec.ofNat 64 8⟩ ⟨BitVec.ofNat 64 5
 omit [Target] in
 example : @RawList_get t64 true (@RawListS.mk t64 ⟨BitVec.ofNat 64 (2 ^ 63)⟩ ⟨BitVec.ofNat 64 3⟩ ⟨BitVec.ofNat 64 4⟩)
     (⟨BitVec.ofNat 64 2⟩ : @USz t64) = .panic := by decide
+
+-- non-vacuity of the line-slice theorems: lines 1..2 of "a\nb\n" are "b\n"; a reversed range and a line
+-- number past the end answer `None`
+omit [Target] in
+example : @StringLines_slice t64 false ⟨['a', '\n', 'b', '\n']⟩ ⟨BitVec.ofNat 64 1⟩ ⟨BitVec.ofNat 64 2⟩ = .ok (some ⟨['b', '\n']⟩)
+    ∧ @StringLines_slice t64 false ⟨['a', '\n', 'b', '\n']⟩ ⟨BitVec.ofNat 64 2⟩ ⟨BitVec.ofNat 64 1⟩ = .ok none
+    ∧ @StringLines_slice t64 false ⟨['a', '\n', 'b']⟩ ⟨BitVec.ofNat 64 1⟩ ⟨BitVec.ofNat 64 3⟩ = .ok none
+    ∧ @StringLines_slice t64 false ⟨['a', '\n', 'b']⟩ ⟨BitVec.ofNat 64 1⟩ ⟨BitVec.ofNat 64 2⟩ = .ok (some ⟨['b']⟩) := by
+  decide
 
 /-! ### `List.join`: no size arithmetic, no panic — for every list, the empty one included -/
 
